@@ -358,6 +358,10 @@ func c20Cases(env *core.Env, rng *rand.Rand) []core.Case {
 		{"equal-tampered", []c20Release{with(good("v2.0.0"), func(r *c20Release) { r.Checksum = "mismatch" })}},
 		{"non-semver-tag", []c20Release{good("nightly")}},
 		{"rc-tag-not-flagged", []c20Release{good("v2.1.0-rc1")}},
+		// tags with a pre-release suffix (not flagged as pre-release by the service) that are not newer than what runs
+		{"older-rc-tag-not-flagged", []c20Release{good("v1.9.0-rc1")}},
+		{"own-rc-tag-not-flagged", []c20Release{good("v2.0.0-rc1")}},
+		{"older-rc-tag-above-older-stable", []c20Release{good("v1.8.0"), good("v1.9.0-beta.3")}},
 		{"newest-is-draft", []c20Release{with(good("v9.9.9"), func(r *c20Release) { r.Draft = true }), good("v2.5.0"), good("v1.0.0")}},
 		{"newest-is-prerelease", []c20Release{with(good("v9.9.9"), func(r *c20Release) { r.Prerelease = true }), good("v2.5.0")}},
 		{"newest-other-platform", []c20Release{with(good("v9.9.9"), func(r *c20Release) { r.Platform = "other" }), good("v2.5.0")}},
@@ -411,7 +415,7 @@ func init() {
 	register(&core.Property{
 		ID:    "C20",
 		Level: "fault_enumeration",
-		Rule: "the built CLI (variants with main.version = v2.0.0, v0.0.0-dev, empty -> 'dev', v2.1.0-rc.1 and v3.0.0-beta.2), copied into a sandbox, runs `self-update` against a fake of the GitHub release API (TLS-intercepting CONNECT proxy, selected only through HTTPS_PROXY / SSL_CERT_FILE). Enumerated: 29 catalogues (newer verified release, checksum mismatching / for another file / empty / missing, corrupt archive, archive without the binary, other platforms only, another architecture of the same OS only / listed first, no assets, empty catalogue, draft, pre-release, older, equal, equal but tampered, non-semver tag, rc tag, newest release unusable with an older usable one behind it, unordered catalogues) x 5 running versions, and for four flows one HTTP fault (500, 404, truncated body, connection reset, empty 200) at each request index 1..4 x 2 running versions; plus PRNG catalogues of 0..6 releases with random attributes and faults. " +
+		Rule: "the built CLI (variants with main.version = v2.0.0, v0.0.0-dev, empty -> 'dev', v2.1.0-rc.1 and v3.0.0-beta.2), copied into a sandbox, runs `self-update` against a fake of the GitHub release API (TLS-intercepting CONNECT proxy, selected only through HTTPS_PROXY / SSL_CERT_FILE). Enumerated: 32 catalogues (newer verified release, checksum mismatching / for another file / empty / missing, corrupt archive, archive without the binary, other platforms only, another architecture of the same OS only / listed first, no assets, empty catalogue, draft, pre-release, older, equal, equal but tampered, non-semver tag, rc tag newer / older than / of the running version, newest release unusable with an older usable one behind it, unordered catalogues) x 5 running versions, and for four flows one HTTP fault (500, 404, truncated body, connection reset, empty 200) at each request index 1..4 x 2 running versions; plus PRNG catalogues of 0..6 releases with random attributes and faults. " +
 			"Oracle: a model of the statement decides install / fail / nothing-to-do; install: exit 0 and the executable equals the payload of the best release's linux_amd64 asset and is executable; fail: sha256 unchanged and exit != 0; nothing-to-do: unchanged. Trace property over the fake's request log: the executable changes only if the asset and the checksum file of the same release were both served completely. No file is left next to the executable; no runtime fault or panic. Non-trivial = every scenario.",
 		Cases:         c20Cases,
 		Check:         c20Check,
